@@ -116,13 +116,23 @@ def enum_surv(ctx):
                     idx += 1
                     if ctx.mine(idx):
                         rng = ctx.rng("surv", idx)
-                        yield {"fs": fs, "dr": dr, "iis": iis, "ids": ids, "df": rng.choice([4, 5]), "ctx_low": rng.getrandbits(13),
-                               "ctx_addr": gen.addr24(rng), "hc": rng.choice("ULM")}
+                        c = {"fs": fs, "dr": dr, "iis": iis, "ids": ids, "df": rng.choice([4, 5]), "ctx_low": rng.getrandbits(13),
+                             "ctx_addr": gen.addr24(rng), "hc": rng.choice("ULM")}
+                        # every bit behind the fields set (or clear), the 24 bits of the AP field included: with IDS = 3 (0) that puts a run of ones (zeros)
+                        # behind whichever field is looked at, from its last bit to the end of the frame
+                        if ids == 3 or (ids == 0 and iis % 2 == 0):
+                            c["tail"] = "ones" if ids == 3 else "zeros"
+                        yield c
 
 
 def chk_surv(case, note):
     fs, dr, iis, ids = case["fs"], case["dr"], case["iis"], case["ids"]
     body = (fs << 24) | (dr << 19) | (iis << 15) | (ids << 13) | case["ctx_low"]
+    if case.get("tail"):
+        body = (body & ~0x1FFF) | (0x1FFF if case["tail"] == "ones" else 0)
+        ap = 0xFFFFFF if case["tail"] == "ones" else 0
+        case = dict(case, ctx_addr=(frames.raw(case["df"], body, 56, 0) & 0xFFFFFF) ^ ap)   # the address that makes the transmitted AP field all ones / all zeros
+        note.cls("tail-all-" + case["tail"])
     msg = frames.tohex(frames.raw(case["df"], body, 56, case["ctx_addr"]), 56, case["hc"])
     for nm, fn, exp in (("surv.fs", pms.surv.fs, (fs,)), ("surv.dr", pms.surv.dr, (dr,)), ("surv.um", pms.surv.um, (iis, ids))):
         r = call(fn, msg)
@@ -159,6 +169,12 @@ def enum_allcall(ctx):
                 rng = ctx.rng("ac", idx)
                 o = ov if isinstance(ov, int) else rng.randrange(80, 1 << 24)
                 yield {"ca": ca, "overlay": o, "ctx_aa": gen.addr24(rng), "hc": rng.choice("ULM")}
+        # the whole reply behind the CA field all ones / all zeros (address FFFFFF / 000000 and the overlay that makes the PI field the same)
+        for tail in ("ones", "zeros"):
+            idx += 1
+            if ctx.mine(idx):
+                aa = 0xFFFFFF if tail == "ones" else 0
+                yield {"ca": ca, "overlay": (frames.df11(aa, ca, 0) & 0xFFFFFF) ^ aa, "ctx_aa": aa, "hc": "U", "tail": tail}
         # replies whose PI digits are the same as digits of the data part (address chosen for the purpose), every interrogator code
         for ov in list(range(80)) + [80, 200]:
             for k in (0, 1, 2):
